@@ -261,8 +261,13 @@ class BlockSeries:
             if isinstance(order, slice):
                 if order.stop is None:
                     raise IndexError("Cannot evaluate infinite series")
-                if isinstance(order.start, int) and order.start < 0:
+                if (order.start is not None and order.start < 0) or order.stop < 0:
                     raise IndexError("Cannot evaluate negative order")
+            elif isinstance(order, int):
+                if order < 0:
+                    raise IndexError("Cannot evaluate negative order")
+            elif np.any(np.asarray(order) < 0):
+                raise IndexError("Cannot evaluate negative order")
 
     def _check_number_perturbations(self, item: tuple[OneItem, ...]):
         """Check that the number of indices is correct.
